@@ -43,10 +43,42 @@ def extra(c, sp, stats):
     stats["max_calls_seen"] = max(stats.get("max_calls_seen", 0), n)
 
 
+def never_twice(c, sp, v):
+    """Used ONLY in the search that starts after the correspondence broke (so never on the unchanged tree): in a
+    session of the preferred search every SAT call is preceded, since the previous call, by a clause that contains
+    the search selector positively - the clause that blocks the candidate examined before the call.  A call without
+    one re-examines a candidate ('for PR ... no candidate set is ever examined twice'; the theorem about the model is
+    C18_log_preferred_no_candidate_twice)."""
+    if "/PR/" not in c.kind:
+        return v
+    since = {}
+    seen_solve = set()
+    for e in c.evs:
+        t = e.split()
+        if len(t) < 2:
+            continue
+        k, what = t[0], t[1]
+        if what == "cl":
+            since.setdefault(k, []).append([int(x) for x in t[2:]])
+        elif what == "solve":
+            arrow = t.index("=>")
+            neg = [int(x) for x in t[2:arrow] if int(x) < 0]
+            first = k not in seen_solve
+            seen_solve.add(k)
+            # (the first call of a session is exempt: when the grounded extension of the component is empty the search
+            # starts with a bare call, which is legitimate and indistinguishable here from a lost block of the start set)
+            if len(neg) == 1 and not first:
+                sel = -neg[0]
+                if not any(sel in cl for cl in since.get(k, [])):
+                    return "bad candidate-examined-twice: a SAT call of the preferred search in session %s is not preceded by a clause blocking the candidate examined before it" % k
+            since[k] = []
+    return v
+
+
 def main(ctx):
     total = 30000 if ctx.thorough else 3000
     static_check(
-        ctx, "static", total, extra="--nopre", judge=judge, extra_stats=extra, spec_opts="--bound", extra_props=("C18dyn", "C18log", "C18pr"),
+        ctx, "static", total, extra="--nopre", judge=judge, extra_stats=extra, spec_opts="--bound", extra_props=("C18dyn", "C18log", "C18pr"), search_judge=never_twice,
         more_runs=[("static", 0, "--nopre --exhaustive 3")],
         rule="all 18 library problems x encoders x certificate flag on exhaustive small and generated frameworks; the number of SAT calls per session (= per connected component) and in total is compared with the bound of the property computed by brute force per component (|base| = number of conflict-free / admissible / complete sets of the encoder in use, |PR| = number of preferred extensions): PR <= |base|+|PR|+1, ID <= 2|base|+|PR|+2, SST/STG <= (n+2)|base|+3, CO/ST <= 2; traces replayed on Model.Solvers (same call count by construction of the replay)",
     )
